@@ -194,9 +194,12 @@ type crashImage struct {
 	Nth    int // n-th hit of Point in this process (for the real-process tier)
 	Step   int64
 	Dir    DirState
+	Inferred bool // reconstructed from inotify events between two scheduling points
 }
 
 type crashObserver struct {
+	watch    *dirWatch
+	inferred int
 	inCommit bool
 	commit   int
 	images   []crashImage
@@ -211,13 +214,25 @@ func (co *crashObserver) OnArrival(k *Kernel, g *G, a *arrival) {
 	if co.hits == nil {
 		co.hits = map[string]int{}
 		co.versions = append(co.versions, SnapshotDir(k.Dir))
+		co.watch = newDirWatch(k.Dir)
 	}
 	co.hits[a.point]++
+	evs := co.watch.Drain()
+	wasIn := co.inCommit
 	if a.point == "tx.commit.truncate" && !co.inCommit {
 		co.inCommit = true
 	}
 	if co.inCommit {
-		co.images = append(co.images, crashImage{Commit: co.commit, Point: a.point, Nth: co.hits[a.point], Step: k.step.Load(), Dir: SnapshotDir(k.Dir)})
+		now := SnapshotDir(k.Dir)
+		if wasIn && len(co.images) > 0 {
+			// more than one file-system operation since the previous crash point: the
+			// states in between are crash points too
+			for j, st := range intermediateStates(co.images[len(co.images)-1].Dir, now, evs) {
+				co.inferred++
+				co.images = append(co.images, crashImage{Commit: co.commit, Point: fmt.Sprintf("%s~after-operation-%d-of-the-step-before", a.point, j+1), Nth: co.hits[a.point], Step: k.step.Load(), Dir: st, Inferred: true})
+			}
+		}
+		co.images = append(co.images, crashImage{Commit: co.commit, Point: a.point, Nth: co.hits[a.point], Step: k.step.Load(), Dir: now})
 	}
 	if a.point == "tx.commit.done" && co.inCommit {
 		co.inCommit = false
@@ -232,7 +247,9 @@ func (c10) Eval(t *testing.T, c *Case, dec func(int) *Decider) *Outcome {
 	const prop = "C10"
 	co := &crashObserver{}
 	res, _ := Execute(t, sc, dec(0), co)
+	co.watch.Close()
 	o.Runs = 1
+	o.Stats.Probes = addProbe(o.Stats.Probes, "crash-images-inferred-between-hooks", co.inferred)
 	o.addStats(res.Stats)
 	o.LogHash, o.TraceHash = res.LogHash, res.TraceHash
 	o.Trace = tail(res.Log, 300)
@@ -288,6 +305,9 @@ func (c10) Eval(t *testing.T, c *Case, dec func(int) *Decider) *Outcome {
 	if len(co.images) > 0 && len(o.Violations) == 0 {
 		r := Sub(c.Seed, "usable")
 		img := co.images[r.Intn(len(co.images))]
+		for img.Inferred {
+			img = co.images[r.Intn(len(co.images))]
+		}
 		usc := &Scenario{Prop: prop, Knobs: sc.Knobs, Sched: SchedSpec{Strategy: "uniform", Seed: 1}, MaxSteps: 60000}
 		for name, f := range img.Dir {
 			if IsControlFile(name) || f.IsDir {
@@ -320,7 +340,7 @@ func (c10) Eval(t *testing.T, c *Case, dec func(int) *Decider) *Outcome {
 		}
 		for i := 0; i < n; i++ {
 			img := co.images[r.Intn(len(co.images))]
-			if strings.HasSuffix(img.Point, ".mid") || strings.HasPrefix(img.Point, "mutex.") {
+			if img.Inferred || strings.HasSuffix(img.Point, ".mid") || strings.HasPrefix(img.Point, "mutex.") {
 				continue // the real-process writer splits at half, not at the simulated fraction
 			}
 			dir, err := realCrash(bin, sc, img.Point, img.Nth)
